@@ -23,6 +23,58 @@ theorem widths_agree :
     NV.Gen.C06.arrRefBits = W ∧ NV.Gen.C06.mapRefBits = W ∧ NV.Gen.C06.bufRefBits = W ∧
     NV.Gen.C06.funRefBits = W ∧ NV.Gen.C06.objRefBits = W ∧ NV.Gen.C06.sharedRefBits = SW := by decide
 
+/-! ### the counter updates of the model are the regenerated ones
+
+`NV.Gen.C06.strInc / strDec` are translated from the bodies of INC_COUNTED_REF / DEC_COUNTED_REF (`gcc -E`),
+`refedDec / refedInc` from the T_REFED branches of free_svalue / assign_svalue_no_free (the translator also insists
+that the increment is unconditional and that assign_svalue frees before it copies).  A changed C line changes these
+definitions and breaks the bridging lemmas below. -/
+
+theorem incRef_str_matches (r : Nat) (h : r < 2 ^ SW) : incRef .str r 1 = NV.Gen.C06.strInc r := by
+  unfold incRef NV.Gen.C06.strInc
+  simp only [Kind.isStr, if_true]
+  by_cases h0 : r = 0
+  · simp [h0]
+  · have hne : (r != 0) = true := by simp [h0]
+    rw [if_neg h0, if_pos hne]
+    by_cases hlt : r + 1 < 2 ^ SW
+    · rw [if_pos hlt]; exact (Nat.mod_eq_of_lt hlt).symm
+    · rw [if_neg hlt]
+      have : r + 1 = 2 ^ SW := by omega
+      rw [this]; exact (Nat.mod_self _).symm
+
+theorem decRef_str_matches (r : Nat) (h : r < 2 ^ SW) : decRef .str r = NV.Gen.C06.strDec r := by
+  unfold decRef NV.Gen.C06.strDec
+  simp only [Kind.isStr, if_true]
+  by_cases h0 : r = 0
+  · simp [h0]
+  · have hne : (r == 0) = false := by simp [h0]
+    rw [if_neg h0, hne]
+    simp only [Bool.false_eq_true, if_false]
+    have hp : 0 < 2 ^ SW := Nat.pow_pos (by decide)
+    have e : (r + 2 ^ SW - 1) % 2 ^ SW = r - 1 := by
+      rw [show r + 2 ^ SW - 1 = (r - 1) + 2 ^ SW by omega, Nat.add_mod_right, Nat.mod_eq_of_lt (by omega)]
+    show (r - 1, r - 1 == 0) = ((r + 2 ^ SW - 1) % 2 ^ SW, !decide ((r + 2 ^ SW - 1) % 2 ^ SW > 0))
+    rw [e]
+    cases r - 1 with
+    | zero => simp
+    | succ n => simp
+
+theorem decRef_refed_matches (k : Kind) (hk : k.isStr = false) (r : Nat) :
+    decRef k r = NV.Gen.C06.refedDec r := by
+  unfold decRef NV.Gen.C06.refedDec
+  rw [if_neg (by simp [hk])]
+  show ((r + 2 ^ W - 1) % 2 ^ W, (r + 2 ^ W - 1) % 2 ^ W == 0) = ((r + 2 ^ W - 1) % 2 ^ W, !((r + 2 ^ W - 1) % 2 ^ W != 0))
+  generalize (r + 2 ^ W - 1) % 2 ^ W = x
+  cases x with
+  | zero => simp
+  | succ n => simp
+
+theorem incRef_refed_matches (k : Kind) (hk : k.isStr = false) (r : Nat) :
+    incRef k r 1 = NV.Gen.C06.refedInc r := by
+  unfold incRef NV.Gen.C06.refedInc
+  rw [if_neg (by simp [hk])]
+
 /-- the hypothesis of the task (`holders ≤ 2^W − 1` for every value) implies `Fits` -/
 theorem Fits_of_le (s : St) (h : ∀ c, H s c ≤ 2 ^ W - 1) : Fits s := by
   intro c
